@@ -197,7 +197,7 @@ func (s *sim) do(op string) (string, string) {
 			return op, "panic"
 		}
 		if target == nil {
-			if err == nil || s.totalEvents() != before {
+			if err == nil || (s.blk == nil && s.totalEvents() != before) {
 				s.failf("unmatched-response-completed", "a response with sequence number %d matches no outstanding call, yet Dispatch returned %v and %d completion(s) happened", seq, err, s.totalEvents()-before)
 				return op, "ok ?"
 			}
@@ -218,7 +218,7 @@ func (s *sim) do(op string) (string, string) {
 		}
 		target.expect = &want
 		ans := s.awaitCompletion(target, fmt.Sprintf("its response (err=%d code=%d dec=%s)", isErr, code, dec))
-		if n := s.totalEvents() - before; n > 1 {
+		if n := s.totalEvents() - before; n > 1 && s.blk == nil {
 			s.failf("response-completed-several", "one response (seq %d) produced %d completions", seq, n)
 		}
 		if err != nil && !(target.id%5 == 0 && !target.block) && strings.Contains(err.Error(), "not found") {
@@ -230,6 +230,15 @@ func (s *sim) do(op string) (string, string) {
 		now, ok := kvInt(ws, "now")
 		if !ok || s.cli == nil {
 			return op, "bad-op"
+		}
+		// `ref=<id>:<delta>`: the instant is the (re-read) deadline of call <id> plus delta — keeps replays exact
+		if ref := kvStr(ws, "ref"); ref != "" {
+			var id int
+			var delta int64
+			if _, err := fmt.Sscanf(ref, "%d:%d", &id, &delta); err == nil && id >= 0 && id < len(s.calls) && s.calls[id].dl != 0 {
+				now = s.calls[id].dl + delta
+				op = fmt.Sprintf("sweep now=%d ref=%s", now, ref)
+			}
 		}
 		for _, o := range s.outstanding() {
 			if now > o.dl {
@@ -249,8 +258,9 @@ func (s *sim) do(op string) (string, string) {
 		}
 		var due []*callRec
 		for _, c := range s.calls {
-			if c.expect != nil && c.expect.ec == codeTimeout && len(s.eventsOf(c.id)) == 0 && c.timingOut() {
+			if c.expect != nil && c.expect.ec == codeTimeout && len(s.eventsOf(c.id)) == 0 && c.timingOut() && !c.batch {
 				due = append(due, c)
+				c.batch = true
 			}
 		}
 		before := s.totalEvents()
@@ -263,7 +273,8 @@ func (s *sim) do(op string) (string, string) {
 		for _, c := range due {
 			parts = append(parts, s.awaitCompletion(c, "the timeout reap"))
 		}
-		if n != len(due) || s.totalEvents()-before != len(due) {
+		// (inside an interleaved ReapTimeout the blocking callers of the outer batch report concurrently: no event counting)
+		if n != len(due) || (s.blk == nil && s.totalEvents()-before != len(due)) {
 			s.failf("reap-count", "ReapTimeout returned %d and %d completion(s) happened where %d overdue call(s) were swept", n, s.totalEvents()-before, len(due))
 		}
 		sort.Strings(parts)
